@@ -122,7 +122,7 @@ POINTS_E7 = [(515000000, -1000000), (0, 0), (900000000, 1800000000), (-900000000
 TRI = [[515000000, -1000000], [515000000, -900000], [515100000, -900000]]
 TRI2 = [[516000000, -1000000], [516000000, -900000], [516100000, -900000]]
 SQUARE = [[515000000, -1000000], [515000000, -800000], [515200000, -800000], [515200000, -1000000]]
-HOLE = [[515050000, -950000], [515150000, -950000], [515150000, -850000], [515050000, -850000]]
+HOLE = [[515050000, -950000], [515050000, -850000], [515150000, -850000], [515150000, -950000]]   # CCW like the shell: s2.PolygonFromLoops nests it
 PATHS = [[[515000000, -1000000], [515100000, -1000000]], TRI, [[0, 0], [1, 1]], SQUARE + [SQUARE[0]]]
 AREAS = [[[TRI]], [[TRI], [TRI2]], [[SQUARE]], [[SQUARE, HOLE]]]
 
